@@ -29,10 +29,16 @@ Qed.
 
 (* bsonkit.Add / Mul / Mod: any two values *)
 Theorem Add_safe a b : safe (Add a b).
-Proof. unfold Add. destruct a; destruct b; try exact I; apply dec_binop_safe; apply dec_result_total. Qed.
+Proof.
+  unfold Add. destruct (non_finite a b false); [exact I|].
+  unfold add_finite. destruct a; destruct b; try exact I; apply dec_binop_safe; apply dec_result_total.
+Qed.
 
 Theorem Mul_safe a b : safe (Mul a b).
-Proof. unfold Mul. destruct a; destruct b; try exact I; apply dec_binop_safe; apply dec_result_total. Qed.
+Proof.
+  unfold Mul. destruct (non_finite a b true); [exact I|].
+  unfold mul_finite. destruct a; destruct b; try exact I; apply dec_binop_safe; apply dec_result_total.
+Qed.
 
 Theorem Mod_safe a b : safe (Mod a b).
 Proof.
